@@ -628,6 +628,11 @@ class Check:
             "known_findings_hit": self.known_hits,
         }
         ev["coverage"].update({k: v for k, v in self.extra.items() if k != "exhaustive"})
+        # a generator that silently loses a large share of its scenarios weakens the tie without failing anything: say so
+        for k, v in self.hist.items():
+            if "dropped-scenarios" in k and self.n_scen and v * 5 > self.n_scen:
+                print("WARNING: %s: %d of %d scenarios were dropped by the generator (%s)" % (self.id, v, self.n_scen, k))
+                ev["coverage"]["generator_warning"] = "%s=%d of %d scenarios" % (k, v, self.n_scen)
         evdir = os.path.join(VERIF, "evidence") if REPO == "/repo" else os.path.join(VERIF, "out", "scratch-evidence")
         os.makedirs(evdir, exist_ok=True)
         with open(os.path.join(evdir, self.id + ".json"), "w") as f:
